@@ -337,7 +337,12 @@ impl Sender {
                 None => Err(TrySendError::Full),
             }
         } else {
-            match self.credits.try_request(data.len().min(u32::MAX as usize) as u32)? {
+            // A message that cannot be paid for in one request can never be sent without waiting.
+            let req = match u32::try_from(data.len()) {
+                Ok(req) => req,
+                Err(_) => return Err(TrySendError::Full),
+            };
+            match self.credits.try_request(req)? {
                 Some(mut credits) => {
                     let mut first = true;
                     while !data.is_empty() {
